@@ -617,6 +617,9 @@ class ExprMixin(object):
             return z3.Or(*[self.compare(ast.Eq(), item, x, st) for x in c.items]) if c.items else z3.BoolVal(False)
         if isinstance(c, SeqV):
             return z3.Contains(c.z, z3.Unit(unwrap(self.deref(item, st))))
+        if (isinstance(c, Sc) and c.py == 'str') or isinstance(c, PyStr):
+            it = self.deref(item, st)
+            if isinstance(it, (PyStr, Sc)): return z3.Contains(unwrap(c), unwrap(it))      # substring test of str
         raise Unsupported('membership in %r' % (c,))
 
     def key_sort(self, kty):
@@ -712,6 +715,10 @@ class ExprMixin(object):
             if fi is not None and fi.is_property:
                 return self.call_function(fi, [recv], {}, st, self_cls=self.class_home(r.cls), node=node)
             if fi is not None: return [(BoundMethod(recv, name), st)]
+            m_, c_ = self.class_home(r.cls)
+            a_ = m_.class_attr(c_, name)
+            if a_ is not None and isinstance(a_, (ast.Constant, ast.Dict, ast.Tuple, ast.List)):
+                return self.ev(a_, st)        # class-level constant (NAME = literal / literal table in the class body), never re-bound on instances in the handled subset
             raise AttributeErrorSite(r.cls, name)
         if isinstance(r, SeqV) and getattr(r, 'cls', None) and name == 'xproxy':
             xp = SeqV(r.z, r.elem); xp.xproxy_of = r.z
@@ -2207,6 +2214,7 @@ class CallMixin(object):
                 s2 = st.copy(); s2.pc.append(z3.Not(present))
                 return [(wrap(r.vty, z3.Select(r.get, k)), s1), (dflt, s2)]
         if isinstance(r, PyDict) and name == 'values' and not args: return [(Tup(list(r.d.values())), st)]
+        if isinstance(r, PyDict) and name == 'items' and not args: return [(Tup([Tup([PyStr(k_) if isinstance(k_, str) else k_, v_]) for k_, v_ in r.d.items()]), st)]
         if isinstance(r, PyDict):
             if name == 'get':
                 k = d[0]
@@ -2513,13 +2521,16 @@ class CallMixin(object):
             for nm in c.modifies:
                 v = env[nm]; s_r.cells[v.id] = self.havoc_value(pre_state.cells[v.id], '%s@%s!exc' % (nm, fi.qualname))
             s_r.pc += c.on_raise(NS(self, s_r, frame=fr), ns_pre)
-            for cls_ in (c.raises_classes or ['<any>']):
+            for cls_ in (c.raises_classes if c.raises_classes is not None else ['<any>']):       # (an empty list: the callee's own proof shows that nothing leaves it)
                 self._raises.append(Outcome('raise', s_r.copy(), ExcV(cls_, origin=fi.qualname)))
             st.pc.append(z3.Not(rz))
+        noreturn = False
         for cls_, cond in (getattr(c, 'may_raise', None) or (lambda v: []))(ns_pre):
             s_r = pre_state.copy(); s_r.frames.pop(); s_r.pc.append(cond)
             self._raises.append(Outcome('raise', s_r, ExcV(cls_, origin=c.qualname)))
             st.pc.append(z3.Not(cond))
+            if z3.is_true(cond): noreturn = True        # a call that always raises (argparse's error(), sys.exit): nothing is executed after it
+        if noreturn: return []
         if variants is not None:
             outs_ = []
             for ty_ in variants:
